@@ -294,7 +294,7 @@ EAGAIN, `pass` on timeout, both with the lock still held); `release`/`fail` = `f
 
 /-- the model's `send t k` consumes exactly the k bytes the socket accepted and `stutter` (EAGAIN, time-out)
     consumes nothing: the source counts the same way (regenerated) -/
-theorem byte_accounting : Gen.Wire.countsOnlyAcceptedBytes = true := by decide
+theorem byte_accounting : Gen.Wire.countsOnlyAcceptedBytes = true ∧ Gen.Wire.writeLockUnconditional = true := by decide
 
 theorem skel_IO_write_to_socket : Gen.Skel.IO_write_to_socket =
   ["acq:_wr_lock", "try", "while", "do", "try", "r:socket", "if", "then", "raise:socket.error",
